@@ -3,8 +3,8 @@ import ExoVerif.Model.EvmBatch
 /-!
 # C19 tie for batches: the three places of the Go source `Model/EvmBatch.lean` mirrors statement by statement
 
-* `execMsgs` writes `nonce sender := msg.nonce + 1` after a creation because ApplyMessageWithConfig does
-  (`evmCreateNonceStmts`; the repair proposed for F-19d changes this fact, the model has to follow);
+* `execMsgs` writes `nonce sender := createNonce (nonce found) msg.nonce` after a creation because ApplyMessageWithConfig
+  does (`evmCreateNonceStmts`, the branch as repaired for F-19d in e39c03d);
 * `resetAndConsume` is RefundGas(GasConsumed()) followed by ConsumeGas(gasUsed) (`evmResetGasMeterStmts`);
 * `bumpNonces` compares the message nonce with the current sequence and stores sequence + 1, once per message
   (`evmSeqIncrementStmts`).
@@ -12,10 +12,18 @@ import ExoVerif.Model.EvmBatch
 namespace ExoVerif.EvmFee
 open ExoVerif.Gen
 
+/-- the repaired creation branch (e39c03d), statement by statement: `createNonce nonceBefore msg.Nonce()` is what the last
+    statement stores. Reverting the repair (or any other change of the branch) breaks this theorem. -/
 theorem C19_tie_create_nonce_stmts : evmCreateNonceStmts =
-    ["stateDB.SetNonce(sender.Address(), msg.Nonce())",
+    ["nonceBefore := stateDB.GetNonce(sender.Address())",
+     "stateDB.SetNonce(sender.Address(), msg.Nonce())",
      "ret, _, leftoverGas, vmErr = evm.Create(sender, msg.Data(), leftoverGas, msg.Value())",
-     "stateDB.SetNonce(sender.Address(), msg.Nonce()+1)"] := by decide
+     "if nonceBefore < msg.Nonce()+1 { nonceBefore = msg.Nonce() + 1 }",
+     "stateDB.SetNonce(sender.Address(), nonceBefore)"] := by decide
+
+/-- `createNonce` is the `if` of the branch: nonceBefore, raised to msg.Nonce()+1 when it is below -/
+theorem C19_tie_create_nonce (nonceBefore msgNonce : Int) :
+    createNonce nonceBefore msgNonce = (if nonceBefore < msgNonce + 1 then msgNonce + 1 else nonceBefore) := rfl
 
 theorem C19_tie_reset_gas_meter_stmts : evmResetGasMeterStmts =
     ["ctx.GasMeter().RefundGas(ctx.GasMeter().GasConsumed(), \"reset the gas count\")",
